@@ -168,11 +168,11 @@ run_case(const Case &c)
     const auto base = seq(g, c.pseed);
     const Gen g2{mn, mx, alpha};
     std::printf("ZPURE equal_params %d\n", seq(g2, c.pseed) == base ? 1 : 0);
-    if (n >= 2 && n <= 300000 && c.pthreads > 0) {
+    if (n >= 2 && n <= 60000 && c.pthreads > 0) {
       // generators constructed while ANOTHER thread constructs a generator with other parameters (same class and integer
       // type) equal the ones constructed alone: the constructors share no scratch state
       bool same = true;
-      const int rounds = n > 20000 ? 6 : 24;
+      const int rounds = n > 5000 ? 4 : 10;
       for (int r = 0; r < rounds && same; ++r) {
         std::atomic<int> go{0};
         const double alpha2 = alpha + 0.37;
